@@ -1,4 +1,5 @@
 import Proofs.TxProofs
+import Proofs.Base58
 /-!
 # C04 — tamper evidence of vertices and transactions
 
@@ -159,6 +160,65 @@ theorem undecodable_address_rejected (o : Ops) (msg hash addr : Bytes) (s : Sig)
     rcases h with h | ⟨k', hk', hl'⟩
     · rw [h] at hk; cases hk
     · rw [hk'] at hk; cases hk; exact absurd hl hl'
+
+/-! ## Addresses: one text per key
+
+`realOps.addrKey` is the executable base58check decoder of `CModel/Sha256.lean` (compared with the
+implementation on every address the harness builds). Since fix e7471a1 pins the version byte, decoding is
+injective: a sealing-node (or issuer, or receiver) address cannot be replaced by another text that names the
+same key. This is what makes "issuer ≠ sealer" (C10), which compares address texts, a statement about wallets. -/
+
+/-- two address texts that decode to the same key are the same text -/
+theorem one_address_per_key (a a' : String) (k : Bytes) (h : CModel.Crypto.addressToPubKey a = some k)
+    (h' : CModel.Crypto.addressToPubKey a' = some k) : a = a' :=
+  String.toList_inj.mp (CModel.Crypto.addressToPubKeyC_inj a.toList a'.toList k h h')
+
+theorem char_ofNat_byte : ∀ n : Fin 256, (Char.ofNat n.val).toNat = n.val := by decide +kernel
+
+/-- in the executable instance: equal keys ⇒ equal address bytes -/
+theorem realOps_address_injective (a a' : Bytes) (k : Bytes) (h : realOps.addrKey a = some k) (h' : realOps.addrKey a' = some k) :
+    a = a' := by
+  have e := one_address_per_key _ _ k h h'
+  have e2 := congrArg String.toList e
+  simp only [String.toList_ofList] at e2
+  -- byte → char is injective
+  have inj : ∀ (x y : List UInt8), x.map (fun b => Char.ofNat b.toNat) = y.map (fun b => Char.ofNat b.toNat) → x = y := by
+    intro x
+    induction x with
+    | nil => intro y hy; cases y with | nil => rfl | cons _ _ => simp at hy
+    | cons b bs ih =>
+      intro y hy
+      cases y with
+      | nil => simp at hy
+      | cons c cs =>
+        simp only [List.map_cons, List.cons.injEq] at hy
+        have hb : b = c := by
+          have h1 := congrArg Char.toNat hy.1
+          have r1 := char_ofNat_byte ⟨b.toNat, b.toNat_lt⟩
+          have r2 := char_ofNat_byte ⟨c.toNat, c.toNat_lt⟩
+          simp only at r1 r2
+          rw [r1, r2] at h1
+          exact UInt8.toNat_inj.mp h1
+        rw [hb, ih cs hy.2]
+  exact inj a a' e2
+
+/-- hence different address texts are different wallets: the ledger's "issuer ≠ sealer" comparison of
+address texts (C10) is a comparison of keys -/
+theorem different_addresses_different_keys (a a' k k' : Bytes) (h : realOps.addrKey a = some k) (h' : realOps.addrKey a' = some k')
+    (hne : a ≠ a') : k ≠ k' := fun e => hne (realOps_address_injective a a' k h (e ▸ h'))
+
+/-- with one text per key the sealing-node address is tamper-evident as well: two verifying vertices that
+share the sealing signature name the same sealing address (cf. `vertex_fields_tamper_evident`) -/
+theorem signer_address_tamper_evident (v v' : VertexB) (wf : v.WF) (wf' : v'.WF)
+    (hv : verifyVertex realOps v = true) (hv' : verifyVertex realOps v' = true) (hsig : v'.sig = v.sig)
+    (nocoll : realOps.H (vertexData v) = realOps.H (vertexData v') → vertexData v = vertexData v') :
+    v'.signer = v.signer := by
+  have hk := (vertex_fields_tamper_evident realOps v v' wf wf' hv hv' hsig nocoll).2.2.2.2.2.2
+  unfold verifyVertex at hv
+  rw [Bool.and_eq_true] at hv
+  obtain ⟨_, k, hk1, _, _⟩ := verifyMsg_true hv.2
+  rw [hk1] at hk
+  exact realOps_address_injective _ _ k hk hk1
 
 /-! ## Refutations (the property is false of the code for these two mutation classes) -/
 
